@@ -2,7 +2,7 @@
 import random
 
 from common import (F, cnat, copt, cq, cql, cqll, cres, clist, ctuple, fsl, node_set,
-                    npts_of, pts_json, rand_points, rand_weights, random_vector, shape_vectors)
+                    npts_of, pts_json, rand_points, rand_weights, random_vector, shape_vectors, weights_one_at)
 
 COQ_MODULE = "NurbsV.Check.C01"
 CHECK_FN = "check_case"
@@ -29,11 +29,15 @@ def gen(tier, seed):
         for dim, rational in variants:
             if tier == "quick" and v["kind"] == "uniform" and dim == 2:
                 continue
+            W = rand_weights(rnd, n) if rational else None
+            if rational and rnd.random() < 0.4 and v["kind"] != "random-big":
+                # non-constant weights whose weight function is EXACTLY 1 at one of the evaluated parameters
+                W = weights_one_at(U, p, W, rnd.choice(nodes[:-4]))
             cases.append({
                 "U": fsl(U), "p": p, "kind": v["kind"], "mults": v["mults"],
                 "scalar": dim == 1,
                 "P": pts_json(rand_points(rnd, n, dim)),
-                "W": fsl(rand_weights(rnd, n)) if rational else None,
+                "W": fsl(W) if rational else None,
                 "nodes": fsl(nodes),
                 "seqnodes": fsl(rnd.sample(nodes[:-4], len(nodes) - 4)),     # in range, shuffled
             })
